@@ -36,6 +36,7 @@ type cfg struct {
 	SmallWin bool          `json:"sample_window_of_10_completions"` // the limiter's sample window closes after 11 completions (any duration)
 	Collide  bool          `json:"timeouts_collide_with_releases"`
 	StratArg int           `json:"generic_pool_strategy_constructed_with"` // the number handed to the strategy's constructor (the limiter's limit governs)
+	Overflow int           `json:"callers_beyond_limit_plus_backlog"`     // all callers arrive at once, this many more than limit + backlog: they (and only they) may be turned away
 }
 
 var orderings = map[string]pool.Ordering{"random": pool.OrderingRandom, "fifo": pool.OrderingFIFO, "lifo": pool.OrderingLIFO}
@@ -141,9 +142,24 @@ func virtualCase(t *testing.T, idx int64, r *rand.Rand) {
 			maxHold = cs[i].Hold
 		}
 	}
+	// overflow variant: limit + backlog + k callers at the same instant - at most k of them are turned away (at once), and
+	// the pool must work for the others and afterwards exactly as before
+	if c.Ordering != "random" && r.IntN(6) == 0 {
+		c.Overflow = 1 + r.IntN(3)
+		c.Callers = c.Limit + c.Backlog + c.Overflow
+		cs = cs[:0]
+		spread, maxHold, cancels = 0, 0, 0
+		for i := 0; i < c.Callers; i++ {
+			cl := &caller{Arrive: 0, Hold: time.Duration(1+r.IntN(30)) * time.Millisecond, Outcome: r.IntN(3), CancelAfter: -1}
+			cs = append(cs, cl)
+			if cl.Hold > maxHold {
+				maxHold = cl.Hold
+			}
+		}
+	}
 	// colliding variant: everybody arrives at once, every hold lasts H, the backlog timeout is H or 2H - time-outs of queued
 	// callers fire at the very instants holders release (refusals are legitimate here; capacity must survive)
-	c.Collide = c.Ordering != "random" && r.IntN(4) == 0
+	c.Collide = c.Ordering != "random" && c.Overflow == 0 && r.IntN(4) == 0
 	if c.Collide {
 		h := time.Duration(1+r.IntN(20)) * time.Millisecond
 		for _, cl := range cs {
@@ -165,6 +181,7 @@ func virtualCase(t *testing.T, idx int64, r *rand.Rand) {
 	over := atomic.Bool{}
 	var stuck []int
 	lostCapacity := 0
+	secondPhase := ""
 	setYields(c.Yields)
 	defer setYields(0)
 	rt.Scenario(fmt.Sprintf("C19/%s-%s", c.Pool, c.Ordering), idx, c)
@@ -237,6 +254,32 @@ func virtualCase(t *testing.T, idx int64, r *rand.Rand) {
 				}
 				got = append(got, l)
 			}
+			// second phase on the used pool: with every unit held again one more caller (well within limit + backlog) has to
+			// queue - not be turned away - and is served by the next release
+			if lostCapacity == 0 && len(got) == c.Limit {
+				var late atomic.Bool
+				var lateOK bool
+				var lateL core.Listener
+				go func() {
+					lateL, lateOK = p.Acquire(context.Background())
+					late.Store(true)
+				}()
+				synctest.Wait()
+				if late.Load() {
+					secondPhase = "a caller arriving at the used, fully held pool was turned away at once instead of queueing"
+				} else {
+					got[0].OnSuccess()
+					got = got[1:]
+					synctest.Wait()
+					if !late.Load() || !lateOK || lateL == nil {
+						secondPhase = "a caller queued at the used pool was not served by the next release"
+					}
+				}
+				if lateL != nil {
+					got = append(got, lateL)
+				}
+				rt.Count("second_phase_probes", 1)
+			}
 			for _, l := range got {
 				l.OnIgnore()
 			}
@@ -261,6 +304,13 @@ func virtualCase(t *testing.T, idx int64, r *rand.Rand) {
 	if c.Collide {
 		rt.Count("virtual_scenarios_with_colliding_timeouts", 1)
 	}
+	if c.Overflow > 0 {
+		rt.Count("virtual_scenarios_with_more_callers_than_limit_plus_backlog", 1)
+	}
+	if secondPhase != "" {
+		rt.Violation("C19/"+name+"/queued-caller-refused/second-phase-after-the-scenario", idx, rt.J{"config": c, "what": secondPhase, "callers": cs})
+		return
+	}
 	if lostCapacity > 0 {
 		rt.Violation("C19/"+name+"/pool-lost-capacity-after-every-token-completed", idx, rt.J{"config": c, "units_not_admitted_again": lostCapacity, "callers": cs})
 		return
@@ -270,8 +320,17 @@ func virtualCase(t *testing.T, idx int64, r *rand.Rand) {
 		return
 	}
 	waited := 0
+	turnedAway := 0
 	for i, cl := range cs {
 		mayBeRefused := cl.CancelAfter >= 0 || c.Collide // a caller that cancelled may legitimately be refused (or served: pools with a queue ignore cancellation)
+		if !cl.ok && c.Overflow > 0 {
+			turnedAway++
+			if turnedAway > c.Overflow || cl.granted != cl.Arrive {
+				rt.Violation("C19/"+name+"/queued-caller-refused/more-than-the-overflow-or-not-at-once", idx, rt.J{"config": c, "caller": i, "refused_so_far": turnedAway, "returned": cl.granted.String(), "callers": cs})
+				return
+			}
+			continue
+		}
 		if !cl.ok && !mayBeRefused {
 			rt.Violation("C19/"+name+"/queued-caller-refused", idx, rt.J{"config": c, "caller": i, "arrived": cl.Arrive.String(), "returned": cl.granted.String(), "callers": cs})
 			return
